@@ -317,8 +317,8 @@ def run(ck: Check) -> None:
         "(__hash__, identity) as lookup by identity, object identity as heap position",
     ]
     ck.assumptions = [
-        "theorem C11_delimiter_equivariance_partial covers the literal fragment over collision-free alphabets; control-flow "
-        "templates are covered by the oracle run only",
+        "theorem C11_delimiter_equivariance covers the literal fragment under the occurrence guard (no opening delimiter occurs "
+        "inside a text, no closing pattern inside its body); control-flow templates are covered by the oracle run only",
         "an environment's configuration beyond delimiters and template_comments is one opaque value in the model",
     ]
     ck.proof()
@@ -424,7 +424,7 @@ def run(ck: Check) -> None:
                      f"model Lex.run_lex with delimiters {d!r} and the implementation disagree on {src!r}",
                      {"type": "lex", "delims": list(d), "source": src, "impl_tokens": toks, "impl_render": r, "model": model[:1500],
                       "broken": "correspondence Lex.tokenize (parametric in the delimiters) ~ Environment(custom delimiters).tokenizer "
-                                "(theorem C11_delimiter_equivariance_partial)"}, no_input=True)
+                                "(theorem C11_delimiter_equivariance)"}, no_input=True)
 
     # ---------------- part 2
     hcases, hexpected, hmeta = [], [], []
